@@ -58,8 +58,13 @@ impl ReasonStore {
     pub uninterp spec fn lazy_code_of(&self, r: ReasonRef) -> Option<u64>;
     #[verifier::external_body]
     pub fn get_propagator(&self, reason_ref: ReasonRef) -> (r: PropagatorId) ensures r == self.propagator_of(reason_ref) { unimplemented!() }
+    // a lazily explained propagation of a REIFIED propagator (StoredReason::ReifiedLazy): get_lazy_code has no answer for
+    // it (`unimplemented!`).  The nogood propagator is never reified: its own reasons are eager or dynamic-lazy.
+    pub uninterp spec fn reified_lazy(&self, r: ReasonRef) -> bool;
+    pub open spec fn store_ok(&self) -> bool { forall|r: ReasonRef| #![trigger self.propagator_of(r)] self.propagator_of(r) == PropagatorId(0) ==> !self.reified_lazy(r) }
     #[verifier::external_body]
     pub fn get_lazy_code(&self, reference: ReasonRef) -> (r: Option<&u64>)
+        requires !self.reified_lazy(reference)       // @C07 otherwise: panic `cannot get code of reified lazy explanation`
         ensures r is Some == (self.lazy_code_of(reference) is Some), r is Some ==> *r->Some_0 == self.lazy_code_of(reference)->Some_0
     { unimplemented!() }
 }
